@@ -31,8 +31,8 @@ PROPS = {
     "C08": (["structural", "geometry", "derived", "broadcast", "lemmas"], "c08"),
     "C09": (["columns", "lemmas"], "c09"),
     "C10": (["frames", "assign", "ufunc", "derived"], "c10"),
-    "C11": (["hashtable"], "c11"),
-    "C12": (["hashtable", "geometry", "indices"], "c12"),
+    "C11": (["hashtable", "lemmas"], "c11"),
+    "C12": (["hashtable", "geometry", "indices", "lemmas"], "c12"),
     "C13": (["bitarray"], "c13"),
     "C14": (["rle", "lemmas"], "c14"),
     "C15": (["rle", "lemmas"], "c15"),
